@@ -852,6 +852,15 @@ func runCutJob(j *cutJob) {
 			}
 		}
 	}
+	if stream == nil && j.ex.dir == 0 && !j.ex.big {
+		// the proxy's record is not a prefix of the raw peer's reference stream (seen once in
+		// 136000 thorough-tier cases under load: the record was shorter than the handshake
+		// although the caller held the complete response).  The model's premise -- "the
+		// receiver got exactly the first n bytes of this stream" -- is then not established by
+		// the harness, so the case is judged by the statement-level oracle only.
+		j.oracleOnly, j.key = true, j.id
+		return
+	}
 	if stream == nil {
 		if len(got) > j.initL {
 			stream = got[j.initL:]
